@@ -78,9 +78,10 @@ class Sym:
 
 class SInt(Sym):
     """Python int.  z: z3 Int term.  bv: optional (bvterm, width, signed) view with z == bv2int(bvterm)."""
-    __slots__ = ("z", "bv", "bitlen_of", "rng", "lowzeros")
+    __slots__ = ("z", "bv", "bitlen_of", "rng", "lowzeros", "shape")
 
-    def __init__(self, z, bv=None, bitlen_of=None, rng=None, lowzeros=0):
+    def __init__(self, z, bv=None, bitlen_of=None, rng=None, lowzeros=0, shape=None):
+        self.shape = shape  # ("pow2", k) / ("pow2m1", k): the value is 2**k resp. 2**k - 1 for the z3 Int term k
         self.lowzeros = lowzeros  # number of low bits known to be zero (value was shifted left by this much)
         self.z = z
         self.bv = bv
@@ -498,7 +499,7 @@ def concretize(m, v):
         return Fraction(r.numerator_as_long(), r.denominator_as_long())
     if isinstance(v, SBytes):
         n = m.eval(v.ln, model_completion=True).as_long()
-        n = max(0, min(n, 4096))
+        n = max(0, min(n, 1 << 17))
         bs = bytes(m.eval(v.at(z3.IntVal(i)), model_completion=True).as_long() for i in range(n))
         return bytearray(bs) if v.mutable else bs
     if isinstance(v, SText):
